@@ -1,3 +1,8 @@
+#[cfg(jubako_verif_loom)]
+use crate::bases::verif_sync::OnceLock;
+#[cfg(jubako_verif_loom)]
+use std::sync::Arc;
+#[cfg(not(jubako_verif_loom))]
 use std::sync::{Arc, OnceLock};
 
 pub(crate) trait CachableSource<Value> {
